@@ -169,6 +169,7 @@ class LockEngine(Engine):
         if callee in ('malloc', 'calloc'):
             p = Ptr('heap:%s:%s' % (inst.fn.name, inst.id), ())
             st.nn.discard(p)
+            st.ghost[('alloc', p.base)] = 1          # C11.R2: blocks obtained by this call
             return [(st, p)]
         if callee == 'free':
             p = args[0] if args else None
